@@ -87,9 +87,12 @@ def limited(argv, gb=None):
     return ["/bin/sh", "-c", f'ulimit -v {gb << 20}; exec "$0" "$@"'] + list(argv)
 
 
-def garden(args, input=None, timeout=30, cwd=None, env=None):
+def garden(args, input=None, timeout=30, cwd=None, env=None, _second=False):
     """Run the garden CLI. Returns (returncode, stdout, stderr); returncode is
-    None on timeout. Negative returncode = killed by signal."""
+    None on timeout. Negative returncode = killed by signal.  A run that times
+    out is repeated once with three times the allowance before it is reported
+    as a timeout: on a loaded machine a stalled process must not be taken for
+    a hang of the code under test."""
     e = dict(os.environ)
     e.pop("GARDEN_VERIF_INTERRUPT_AT", None)
     e.pop("GARDEN_VERIF_SCHED_SEED", None)
@@ -102,6 +105,8 @@ def garden(args, input=None, timeout=30, cwd=None, env=None):
                            timeout=timeout, **kw)
         return p.returncode, p.stdout.decode("utf-8", "replace"), p.stderr.decode("utf-8", "replace")
     except subprocess.TimeoutExpired as ex:
+        if not _second:
+            return garden(args, input=input, timeout=timeout * 3, cwd=cwd, env=env, _second=True)
         out = (ex.stdout or b"").decode("utf-8", "replace")
         err = (ex.stderr or b"").decode("utf-8", "replace")
         return None, out, err
